@@ -13,17 +13,22 @@ def run(tier, runner):
     r_one = shape.one_grow(progs + real)
     r_gg = shape.grow_guard(progs + real)
     r_gs = shape.grow_shape(progs)
+    r_ew = shape.exact_who(progs + real)
     r_geo.require(2, 'SafeNextCapacity instantiations (both paths)')
     r_one.require(6, 'capacity adjustment call sites')
     r_gg.require(7, 'grow call sites')
     r_gs.require(2, 'the two grow functions')
+    r_ew.require(10, 'element-adding operations of the dynamic vectors')
+    if r_ew.exact_sites < 1:
+        r_ew.require(10 ** 9, 'exact capacity requests (reserve must contain one: positive control)')
     return {
-        'results': [r_geo, r_one, r_gg, r_gs],
+        'results': [r_geo, r_one, r_gg, r_gs, r_ew],
         'explanation': 'GEO: the return expression of SafeNextCapacity is interpreted in the domain of affine lower bounds a*oldCapa + b*newSize + c '
                        '(constants fold, +, *k, /k with floor, max = union, min(x,K) = clamp): the verdict needs a bound with a*a >= 2 (today a = 3/2), a '
                        'bound with b >= 1, the clamp equal to numeric_limits<size_type>::max() and the overflow throw; the exact path returns the request. '
                        'ONE-GROW: no capacity adjustment in a loop, at most one per object per path; GROW-SHAPE: one allocator request per grow; '
-                       'GROW-GUARD: grow only when capacity is insufficient.  Arithmetic: a >= sqrt(2) gives <= ceil(log_a n)+2 <= 2*ceil(log2 n)+4 '
+                       'GROW-GUARD: grow only when capacity is insufficient; EXACT-WHO: who-may-call rule - exact (non geometric) capacity requests are not reachable '
+                       'from any element-adding operation over resolved call edges.  Arithmetic: a >= sqrt(2) gives <= ceil(log_a n)+2 <= 2*ceil(log2 n)+4 '
                        'reallocations and sum of relocations <= a/(a-1)*n = O(n) for n appends, for every n, independent of run-time values.',
         'assumptions': ['size_type clamp only matters when n approaches numeric_limits<size_type>::max()'],
         'trusted': ['clang 14 constant folding of numeric_limits<>::max()', 'the amcsa plugin export'],
